@@ -139,7 +139,12 @@ fn cw20_listings(n: usize, rng: &mut Rng, out: &mut Out, run: &mut u64) {
     init.push(cw20::Cw20Coin { address: owner.to_string(), amount: Uint128::new(1000) });
     let msg = cw20_base::msg::InstantiateMsg { name: "Paging".into(), symbol: "PAG".into(), decimals: 6, initial_balances: init, mint: None, marketing: None };
     let tok = w.app.instantiate_contract(code, creator, &msg, &[], "tok", None).unwrap();
-    // accounts
+    // accounts (some of them emptied: an account with balance 0 is still an account of the listing)
+    for (i, h) in holders.iter().enumerate() {
+        if i % 4 == 2 {
+            w.app.execute_contract(h.clone(), tok.clone(), &cw20::Cw20ExecuteMsg::Transfer { recipient: owner.to_string(), amount: Uint128::new(5) }, &[]).unwrap();
+        }
+    }
     let mut accts: Vec<String> = holders.iter().map(|a| a.to_string()).collect();
     accts.push(owner.to_string());
     let t1 = tok.clone();
@@ -289,7 +294,8 @@ fn cw3_listings(n: usize, flex: bool, rng: &mut Rng, out: &mut Out, run: &mut u6
     if flex {
         let gcode: Box<dyn Contract<Empty>> = Box::new(ContractWrapper::new(cw4_group::contract::execute, cw4_group::contract::instantiate, cw4_group::contract::query));
         let gid = w.app.store_code(gcode);
-        let members: Vec<Member> = voters.iter().map(|v| Member { addr: v.to_string(), weight: 1 }).collect();
+        // (weight 0 is a valid weight: such members are listed like everybody else)
+        let members: Vec<Member> = voters.iter().enumerate().map(|(i, v)| Member { addr: v.to_string(), weight: if i % 3 == 1 { 0 } else { 1 } }).collect();
         let g = w.app.instantiate_contract(gid, creator.clone(), &cw4_group::msg::InstantiateMsg { admin: None, members }, &[], "g", None).unwrap();
         w.app.update_block(|b| b.height += 5);
         let code: Box<dyn Contract<Empty>> = Box::new(ContractWrapper::new(cw3_flex_multisig::contract::execute, cw3_flex_multisig::contract::instantiate, cw3_flex_multisig::contract::query));
@@ -300,7 +306,7 @@ fn cw3_listings(n: usize, flex: bool, rng: &mut Rng, out: &mut Out, run: &mut u6
         w.app.update_block(|b| b.height += 5);
         let code: Box<dyn Contract<Empty>> = Box::new(ContractWrapper::new(cw3_fixed_multisig::contract::execute, cw3_fixed_multisig::contract::instantiate, cw3_fixed_multisig::contract::query));
         let id = w.app.store_code(code);
-        let msg = cw3_fixed_multisig::msg::InstantiateMsg { voters: voters.iter().map(|v| cw3_fixed_multisig::msg::Voter { addr: v.to_string(), weight: 1 }).collect(), threshold: thr, max_voting_period: Duration::Height(1000) };
+        let msg = cw3_fixed_multisig::msg::InstantiateMsg { voters: voters.iter().enumerate().map(|(i, v)| cw3_fixed_multisig::msg::Voter { addr: v.to_string(), weight: if i % 3 == 1 { 0 } else { 1 } }).collect(), threshold: thr, max_voting_period: Duration::Height(1000) };
         ms = w.app.instantiate_contract(id, creator.clone(), &msg, &[], "ms", None).unwrap();
     }
     let pfx = if flex { "cw3_flex" } else { "cw3_fixed" };
@@ -344,13 +350,18 @@ fn cw3_listings(n: usize, flex: bool, rng: &mut Rng, out: &mut Out, run: &mut u6
     let m = cw3_fixed_multisig::msg::ExecuteMsg::Propose { title: "votes".into(), description: "d".into(), msgs: vec![], latest: None };
     w.app.execute_contract(voters[0].clone(), ms.clone(), &m, &[]).unwrap();
     let pid = n as u64 + 1;
-    for v in voters.iter().skip(1) {
+    let mut balloted = vec![voters[0].to_string()];
+    for (i, v) in voters.iter().enumerate().skip(1) {
+        if i % 3 == 1 {
+            continue; // weight 0: listed as a voter, cannot cast a ballot
+        }
         let m = cw3_fixed_multisig::msg::ExecuteMsg::Vote { proposal_id: pid, vote: cw3::Vote::Yes };
         w.app.execute_contract(v.clone(), ms.clone(), &m, &[]).unwrap();
+        balloted.push(v.to_string());
     }
     let m4 = ms.clone();
     let l = Listing {
-        name: format!("{pfx}.list_votes"), rev: false, numeric: false, truth: sorted(voters.iter().map(|v| v.to_string()).collect()), extra_cursors: extra,
+        name: format!("{pfx}.list_votes"), rev: false, numeric: false, truth: sorted(balloted), extra_cursors: extra,
         fetch: Box::new(move |w, c, lim| {
             let r: cw3::VoteListResponse = w.smart(&m4, &cw3_fixed_multisig::msg::QueryMsg::ListVotes { proposal_id: pid, start_after: c, limit: lim }).unwrap();
             r.votes.into_iter().map(|v| v.voter).collect()
@@ -367,7 +378,7 @@ fn cw4_listings(n: usize, rng: &mut Rng, out: &mut Out, run: &mut u64) {
     let extra = outsiders(&mut w);
     let gcode: Box<dyn Contract<Empty>> = Box::new(ContractWrapper::new(cw4_group::contract::execute, cw4_group::contract::instantiate, cw4_group::contract::query));
     let gid = w.app.store_code(gcode);
-    let ms: Vec<Member> = members.iter().map(|v| Member { addr: v.to_string(), weight: 2 }).collect();
+    let ms: Vec<Member> = members.iter().enumerate().map(|(i, v)| Member { addr: v.to_string(), weight: if i % 3 == 1 { 0 } else { 2 } }).collect();
     let g = w.app.instantiate_contract(gid, creator.clone(), &cw4_group::msg::InstantiateMsg { admin: Some(admin.to_string()), members: ms }, &[], "g", None).unwrap();
     // remove a few again
     let removed: Vec<String> = members.iter().enumerate().filter(|(i, _)| i % 6 == 2).map(|(_, a)| a.to_string()).collect();
